@@ -17,7 +17,9 @@ Grammar family (all choices LL(1) by construction so the derivation is the parse
   match rules    M<i>: keyword | keyword keyword | /%[a-z]+/
   elements       keyword, flag ?=, primitive attrs (INT STRING ID BOOL match rule; one/opt/list),
                  containment (one, opt, * + with and without separator, repeated group,
-                 two plain assignments), references (opt, lists) to common or abstract
+                 two plain assignments), multi-typed containment (`mcont`, see multi_type: one attribute
+                 assigned from several rules / base types in alternatives, in sequence or in several
+                 lists — its meta-class is the generic OBJECT), references (opt, lists) to common or abstract
                  rules (default scope provider, globally unique names, also pointing
                  up the tree), unassigned common-rule call (object that is in no attribute),
                  unassigned match-rule call
@@ -232,6 +234,79 @@ def gen_grammar(rng, max_common=6, want_refs=True, want_user=True, want_traits=F
     return gram
 
 
+def fresh_kw(gram):
+    """keyword source continuing after the keywords the grammar already uses"""
+    import json
+    import re
+
+    used = set(re.findall(r"@([a-z][a-z])", json.dumps(gram)))
+    kw = _Kw()
+    kw.n = max((KW2.index(k) for k in used), default=-1) + 1
+    return kw
+
+
+def multi_type(rng, gram, p_elem=0.5):
+    """Multi-typed containment attributes: some containment elements of the common rules become `mcont`
+    elements — the *same attribute* assigned from several rules (common / abstract rules, match rules,
+    base types; now and then the same rule twice), every assignment behind a keyword of its own:
+
+      choice       (k1 a=T1 | k2 a=T2 | k3 a=INT)      single-valued
+      choiceopt    (k1 a=T1 | k2 a=T2)?                 single-valued, optional
+      choicerep    (k1 a=T1 | k2 a=T2)*                 list (assignment inside a repetition)
+      seq          k1 a=T1 k2 a=T2                      list (assigned twice in one sequence)
+      lists        k1 '[' a*=T1 ']' k2 '{' a+=T2[','] '}'   list filled by several list assignments
+      choicelists  (k1 '[' a+=T1 ']' | k2 '{' a+=T2 '}')     list filled by one of several list assignments
+
+    textX gives such an attribute the generic meta-class OBJECT when the types differ: what the meta-model
+    says about the attribute's type no longer tells which classes the contained objects have.  All choices
+    from `rng` (callers pass a side stream); returns the number of elements changed."""
+    commons = [r for r in gram["rules"] if r["kind"] == "common"]
+    objs = [r["name"] for r in commons[1:]] + [r["name"] for r in gram["rules"] if r["kind"] == "abstract"]
+    prims = list(BASE_TYPES) + [r["name"] for r in gram["rules"] if r["kind"] == "match" and r["name"].startswith("M")]
+    cands = [(r, i) for r in commons for i, e in enumerate(r["elems"]) if e["k"] == "cont" and not e.get("bare")]
+    if not cands or not objs:
+        return 0
+    chosen = [c for c in cands if rng.chance(p_elem)] or [rng.choice(cands)]
+    kw = fresh_kw(gram)
+    for r, i in chosen:
+        e = r["elems"][i]
+        targets = [e["target"]]
+        for _ in range(rng.weighted([(1, 5), (2, 3)])):
+            kind = rng.weighted([("obj", 6), ("prim", 2), ("same", 1)])
+            if kind == "same":
+                targets.append(rng.choice(targets))
+            elif kind == "prim":
+                targets.append(rng.choice(prims))
+            else:
+                others = [t for t in objs if t not in targets]
+                targets.append(rng.choice(others or objs))
+        targets = rng.shuffle(targets)
+        m = e["mult"]
+        if m == "one":
+            form = rng.weighted([("choice", 3), ("seq", 1)])
+        elif m == "opt":
+            form = "choiceopt"
+        elif m in ("star", "starsep"):
+            form = rng.weighted([("lists", 1), ("choicerep", 1)])
+        elif m in ("plus", "plussep"):
+            form = rng.weighted([("lists", 1), ("choicelists", 1)])
+        else:
+            form = "choicerep" if m == "rep" else "seq"
+        alts = []
+        for j, t in enumerate(targets):
+            br = rng.choice(BRACKETS)
+            if form == "choicelists" or (form == "lists" and j == 0 and m in ("plus", "plussep")):
+                op = "+="
+            else:
+                op = rng.choice(["*=", "+="])
+            alts.append({"kw": e["kw"] if j == 0 else kw.new(), "t": t, "op": op, "open": br[0], "close": br[1],
+                         "sep": rng.choice([None, None] + LISTSEPS)})
+        r["elems"][i] = {"k": "mcont", "attr": e["attr"], "form": form, "alts": alts}
+    _make_finite(gram)
+    _normalize(gram)
+    return len(chosen)
+
+
 def _open_ended(e):
     """an element that may match nothing or repeat: a rule must not end with it (an inner
     instance of the same rule would swallow the continuation of the outer one)"""
@@ -239,6 +314,8 @@ def _open_ended(e):
         return True
     if e["k"] in ("prim", "cont"):
         return e["mult"] in ("opt", "rep")
+    if e["k"] == "mcont":
+        return e["form"] in ("choiceopt", "choicerep")
     return False
 
 
@@ -247,7 +324,7 @@ def _normalize(gram):
         if r["kind"] != "common":
             continue
         elems = r["elems"]
-        if not any(e["k"] in ("name", "flag", "prim", "cont", "ref") for e in elems):
+        if not any(e["k"] in ("name", "flag", "prim", "cont", "mcont", "ref") for e in elems):
             i = next(j for j, e in enumerate(elems) if e["k"] == "kw")
             elems.insert(i + 1, {"k": "name"})
         if _open_ended(elems[-1]):
@@ -287,12 +364,57 @@ def _mindepth(gram):
                             new = None
                             break
                         new = max(new, d[e["target"]] + 1)
+                    elif e["k"] == "mcont":
+                        need = mcont_need(e, d)
+                        if need is None:
+                            new = None
+                            break
+                        new = max(new, need)
             else:
                 continue
             if new is not None and (d[n] is None or new < d[n]):
                 d[n] = new
                 changed = True
     return d
+
+
+BASE_TYPES = ("INT", "STRING", "ID", "BOOL")
+MCONT_LIST_FORMS = ("choicerep", "seq", "lists", "choicelists")
+
+
+def mcont_need(e, d):
+    """least depth below a multi-typed containment element (None = no finite derivation);
+    d = least derivation depth per rule"""
+    def dep(a):
+        if a["t"] in BASE_TYPES:
+            return 0
+        return None if d[a["t"]] is None else d[a["t"]] + 1
+
+    deps = [dep(a) for a in e["alts"]]
+    f = e["form"]
+    if f in ("choiceopt", "choicerep"):
+        return 0
+    if f in ("choice", "choicelists"):
+        ok = [x for x in deps if x is not None]
+        return min(ok) if ok else None
+    if f == "seq":
+        return None if any(x is None for x in deps) else max(deps)
+    need = 0  # lists: the parts written with += need an item
+    for a, x in zip(e["alts"], deps):
+        if a["op"] == "+=":
+            if x is None:
+                return None
+            need = max(need, x)
+    return need
+
+
+def _mcont_weaker(e):
+    """the same alternatives in a form that may stay empty"""
+    if e["form"] == "choice":
+        return dict(e, form="choiceopt")
+    if e["form"] in ("seq", "choicelists"):
+        return dict(e, form="choicerep")
+    return dict(e, alts=[dict(a, op="*=") for a in e["alts"]])
 
 
 def _make_finite(gram):
@@ -311,6 +433,8 @@ def _make_finite(gram):
                     if e.get("bare"):
                         continue
                     e = dict(e, mult=weaker[e["mult"]])
+                if e["k"] == "mcont" and mcont_need(e, d) is None:
+                    e = _mcont_weaker(e)
                 if e["k"] == "orphan" and d[e["target"]] is None:
                     continue
                 new.append(e)
@@ -335,6 +459,8 @@ def render_elem(e):
         return f"{e['attr']}?={q(e['kw'])}"
     if k == "orphan" or k == "matchcall":
         return e["target"]
+    if k == "mcont":
+        return render_mcont(e)
     a, t, m = e["attr"], e.get("target", e.get("type")), e["mult"]
     rhs = f"[{t}]" if k == "ref" else t
     if e.get("bare"):
@@ -362,6 +488,22 @@ def render_elem(e):
     if k == "ref":
         return f"({s})?"
     return s
+
+
+def render_mcont(e):
+    """one attribute assigned from several rules (textX: attribute of the generic type OBJECT when
+    the types differ); every alternative starts with a keyword of its own"""
+    a, f = e["attr"], e["form"]
+    if f in ("lists", "choicelists"):
+        parts = []
+        for x in e["alts"]:
+            mod = f"[{q(x['sep'])}]" if x.get("sep") else ""
+            parts.append(f"{q(x['kw'])} {q(x['open'])} {a}{x['op']}{x['t']}{mod} {q(x['close'])}")
+        return " ".join(parts) if f == "lists" else "(" + " | ".join(parts) + ")"
+    parts = [f"{q(x['kw'])} {a}={x['t']}" for x in e["alts"]]
+    if f == "seq":
+        return " ".join(parts)
+    return "(" + " | ".join(parts) + ")" + {"choice": "", "choiceopt": "?", "choicerep": "*"}[f]
 
 
 def render_grammar(gram):
@@ -416,7 +558,49 @@ def derive(rng, gram, maxdepth=4):
             return lo
         return lo + rng.weighted([(0, 4), (1, 4), (2, 3), (3, 1)])
 
+    def mitems(e, depth):
+        """items of a multi-typed containment element: [{"x": alternative, "v": value}]"""
+        alts = e["alts"]
+        stop = depth >= maxdepth or budget[0] <= 0
+
+        def dep(i):
+            t = alts[i]["t"]
+            return 0 if t in BASE_TYPES else md[t]
+
+        def item(i):
+            return {"x": i, "v": value(alts[i]["t"], depth + 1)}
+
+        def pick():
+            idxs = [i for i in range(len(alts)) if dep(i) is not None]
+            if stop:
+                best = min(dep(i) for i in idxs)
+                idxs = [i for i in idxs if dep(i) == best]
+            return rng.choice(idxs)
+
+        f = e["form"]
+        if f in ("choiceopt", "choicerep") and all(dep(i) is None for i in range(len(alts))):
+            return []
+        if f == "choice":
+            return [item(pick())]
+        if f == "choiceopt":
+            return [] if stop or rng.chance(0.3) else [item(pick())]
+        if f == "choicerep":
+            return [item(pick()) for _ in range(count(0, depth))]
+        if f == "seq":
+            return [item(i) for i in range(len(alts))]
+        if f == "lists":
+            out = []
+            for i, a in enumerate(alts):
+                lo = 1 if a["op"] == "+=" else 0
+                n = lo if dep(i) is None else count(lo, depth)
+                out.extend(item(i) for _ in range(n))
+            return out
+        i = pick()  # choicelists
+        return [item(i) for _ in range(count(1, depth))]
+
     def value(T, depth):
+        if T in BASE_TYPES:
+            return {"m": T, "t": [prim_token(rng, R, T)]}
         r = R[T]
         if r["kind"] == "match":
             alt = rng.choice(r["alts"])
@@ -466,6 +650,8 @@ def derive(rng, gram, maxdepth=4):
                 else:
                     n = count(0, depth)
                 node["e"].append([value(e["target"], depth + 1) for _ in range(n)])
+            elif k == "mcont":
+                node["e"].append(mitems(e, depth))
             elif k == "ref":
                 want = 1 if e["mult"] == "opt" else rng.randint(1, 3)
                 node["e"].append({"want": want if rng.chance(0.7) else 0})
@@ -496,14 +682,14 @@ def walk_nodes(gram, tree, contained_only=True):
     R = rules_of(gram)
 
     def unwrap(v):
-        while "a" in v:
+        while "a" in v or "x" in v:
             v = v["v"]
         return v if "r" in v else None
 
     def rec(node, parent, attr, orphan):
         yield node, parent, attr, orphan
         for e, p in zip(R[node["r"]]["elems"], node["e"]):
-            if e["k"] == "cont":
+            if e["k"] in ("cont", "mcont"):
                 for v in p:
                     c = unwrap(v)
                     if c is not None:
@@ -611,6 +797,22 @@ def tokens(gram, tree):
                 lst(e, p, emit_prim)
             elif k == "cont":
                 lst(e, p, val)
+            elif k == "mcont":
+                if e["form"] in ("lists", "choicelists"):
+                    parts = range(len(e["alts"])) if e["form"] == "lists" else sorted({it["x"] for it in p})
+                    for i in parts:
+                        a = e["alts"][i]
+                        out.append(("tok", a["kw"]))
+                        out.append(("tok", a["open"]))
+                        for j, it in enumerate(x for x in p if x["x"] == i):
+                            if j and a.get("sep"):
+                                out.append(("tok", a["sep"]))
+                            val(it["v"])
+                        out.append(("tok", a["close"]))
+                else:
+                    for it in p:
+                        out.append(("tok", e["alts"][it["x"]]["kw"]))
+                        val(it["v"])
             elif k == "ref":
                 lst(e, p, lambda t: out.append(("tok", t)))
         out.append(("close", n))
@@ -710,19 +912,19 @@ def expected(gram, tree, layout, translate=False):
                      "parent": None if parent is None else eid[id(parent)], "attrs": []})
 
     def unwrap(v):
-        while "a" in v:
+        while "a" in v or "x" in v:
             v = v["v"]
         return v
 
     for node, _, _, _ in walk_nodes(gram, tree):
         o = objs[eid[id(node)]]
         for e, p in zip(R[node["r"]]["elems"], node["e"]):
-            if e["k"] == "cont":
+            if e["k"] in ("cont", "mcont"):
                 vals = []
                 for v in p:
                     u = unwrap(v)
                     vals.append(eid[id(u)] if "r" in u else None)
-                many = e["mult"] not in ("one", "opt")
+                many = e["form"] in MCONT_LIST_FORMS if e["k"] == "mcont" else e["mult"] not in ("one", "opt")
                 o["attrs"].append([e["attr"], "cont", vals, many])
             elif e["k"] == "ref":
                 o["attrs"].append([e["attr"], "ref", list(p), e["mult"] != "opt"])
@@ -738,7 +940,8 @@ def list_attrs(rule):
     lists of references are not containment"""
     out = []
     for e in rule["elems"]:
-        if (e["k"] == "cont" and e["mult"] not in ("one", "opt")) or (e["k"] == "prim" and e["mult"] == "star"):
+        if (e["k"] == "cont" and e["mult"] not in ("one", "opt")) or (e["k"] == "prim" and e["mult"] == "star") \
+                or (e["k"] == "mcont" and e["form"] in MCONT_LIST_FORMS):
             if e["attr"] not in out:
                 out.append(e["attr"])
     return out
@@ -911,6 +1114,22 @@ def prune_refs(gram, tree):
     return tree
 
 
+def mcont_valid(e, items):
+    """is this list of items a derivation of the multi-typed element?"""
+    f, n = e["form"], len(items)
+    if f == "choice":
+        return n == 1
+    if f == "choiceopt":
+        return n <= 1
+    if f == "choicerep":
+        return True
+    if f == "seq":
+        return [it["x"] for it in items] == list(range(len(e["alts"])))
+    if f == "choicelists":
+        return n >= 1 and len({it["x"] for it in items}) == 1
+    return all(a["op"] != "+=" or any(it["x"] == i for it in items) for i, a in enumerate(e["alts"]))
+
+
 def shrink_tree(gram, tree):
     """smaller derivations: one list item / optional part removed at a time"""
     R = rules_of(gram)
@@ -921,6 +1140,14 @@ def shrink_tree(gram, tree):
             lo = None
             if e["k"] == "cont" and not e.get("bare"):
                 lo = {"one": 1, "twice": 2, "plus": 1, "plussep": 1}.get(e["mult"], 0)
+            elif e["k"] == "mcont":
+                for k in range(len(p)):
+                    if mcont_valid(e, p[:k] + p[k + 1:]):
+                        t = _copy(tree)
+                        tn = [n for n, _, _, _ in walk_nodes(gram, t, contained_only=False)][ni]
+                        del tn["e"][ei][k]
+                        yield prune_refs(gram, t)
+                continue
             elif e["k"] == "ref":
                 lo = 0
             elif e["k"] == "prim":
